@@ -39,7 +39,7 @@ func init() {
 			"position fields the restorer leaves NoPos are outside the statement (it speaks of positions the restorer assigns) and are only counted",
 			"a comment-token inversion that gofmt itself produces when the comment is spliced textually before the token is attributed to go/printer, not to dst",
 		},
-		Required: map[string]int{"configs": 5},
+		Required: map[string]int{"configs": 6},
 	})
 }
 
@@ -253,6 +253,10 @@ func c12Check(c *fw.Ctx, label, cfg string, r *decorator.Restorer, df *dst.File,
 				pairs = append(pairs, posPair{rp, fp, false, name})
 			} else if fp.IsValid() && !rp.IsValid() {
 				c.Observe("left_nopos", name)
+			} else if rp.IsValid() && !fp.IsValid() {
+				// the restorer positioned a token that is not in the printed text at all
+				viol("phantom-position", "phantom-position:"+name, fmt.Sprintf("%s has position %d in the restored ast, but a fresh parse of the printed text has no such token", name, rp))
+				return len(pairs)
 			}
 		}
 	}
@@ -504,7 +508,7 @@ func runC12(c *fw.Ctx) {
 		if src == nil || len(src) > 150000 {
 			continue
 		}
-		for _, cfg := range []string{"plain", "dense", "imports", "extras"} {
+		for _, cfg := range []string{"plain", "dense", "imports", "extras", "imports-pruned"} {
 			id := "file:" + corpus.Rel(p) + "/" + cfg
 			c.Case(id, func() {
 				c.Observe("configs", cfg)
@@ -521,10 +525,29 @@ func runC12(c *fw.Ctx) {
 				var err error
 				var r *decorator.Restorer
 				switch cfg {
-				case "imports":
+				case "imports", "imports-pruned":
 					d := decorator.NewDecoratorWithImports(token.NewFileSet(), "example.com/self", goast.New())
 					df, err = d.Parse(src)
 					r = decorator.NewRestorerWithImports("example.com/self", guess.New())
+					if err == nil && cfg == "imports-pruned" {
+						// all references but those to one package become local names, so import
+						// management has to prune the import declarations down to that package
+						keep := ""
+						dst.Inspect(df, func(n dst.Node) bool {
+							if id, ok := n.(*dst.Ident); ok && id.Path != "" {
+								if keep == "" {
+									keep = id.Path
+								}
+								if id.Path != keep {
+									id.Path = ""
+								}
+							}
+							return true
+						})
+						if keep == "" {
+							return
+						}
+					}
 				default:
 					df, err = decorator.Parse(src)
 					r = decorator.NewRestorer()
